@@ -374,6 +374,35 @@ Proof.
     simpl in G. inversion G as [G1]. apply memb_In. apply HS. exact G1.
 Qed.
 
+Lemma assoc_state_In : forall tbl c x, assoc_state tbl c = Some x -> In (c, x) tbl.
+Proof.
+  induction tbl as [|[k v] r IH]; intros c x H; simpl in *; [discriminate|].
+  destruct (str_eqb c k) eqn:E.
+  - apply str_eqb_eq in E. inversion H; subst. left. reflexivity.
+  - right. apply IH. exact H.
+Qed.
+
+Definition assoc_ok_b (f : str -> State) (tbl : list (str * State)) : bool :=
+  forallb (fun e => State_eqb (f (fst e)) (snd e)) tbl.
+
+Lemma assoc_ok_sound : forall f tbl,
+  assoc_ok_b f tbl = true -> forall c x, assoc_state tbl c = Some x -> f c = x.
+Proof.
+  intros f tbl H c x A. apply assoc_state_In in A. unfold assoc_ok_b in H.
+  rewrite forallb_forall in H. specialize (H _ A). apply State_eqb_eq in H. exact H.
+Qed.
+
+Lemma expected_ok_apply : forall f tbl ps jl,
+  (forall c x, assoc_state tbl c = Some x -> f c = x) ->
+  expected_ok tbl ps jl (apply_pairs f ps (init_status jl)) = true.
+Proof.
+  intros f tbl ps jl H. unfold expected_ok. apply forallb_forall. intros j Hj.
+  destruct (last_state ps j) as [c|] eqn:L; [|reflexivity].
+  destruct (assoc_state tbl c) as [x|] eqn:A; [|reflexivity].
+  rewrite get_apply_init. unfold spec_answer. apply memb_In in Hj. rewrite Hj, L. simpl.
+  rewrite (H _ _ A). apply State_eqb_refl.
+Qed.
+
 (** folding the row function over the printed lines of a table *)
 Lemma fold_rows_lines : forall {L} (rowf : status -> str -> option status) (pr : L -> str)
     (pairs : L -> list (str * str)) (f : str -> State) (wf : L -> bool),
